@@ -382,3 +382,103 @@ Theorem C06_translated_retry_loop_is_submit_full : forall c fuel b done rem sc s
   GoLiteSubmitLoopRefine.code_submit c fuel b done rem sc sd el = submit c fuel b rem sc sd el.
 Proof. exact GoLiteSubmitLoopRefine.code_submit_is_submit. Qed.
 Print Assumptions C06_translated_retry_loop_is_submit_full.
+
+(* ---- THE SECOND WRITER OF THE DATA WATERMARK: block production's numWaitingData (Model/SubmitterWaiting.v) ------- *)
+(* The last-submitted-data height is written by the data submission loop AND by block production: publishBlockInternal's
+   pending-limit check (MaxPendingHeadersAndData = L reached) calls PendingData.numWaitingData, which reads the pending
+   range and steps the watermark over the items without transactions it meets before the first one with transactions
+   (to the height each fetched item carries).  Histories [list witem]: everything above (WC) and  WPublish L b qs  = one
+   call of publishBlockInternal under the limit L in which, after numWaitingData has read the pending range and before
+   its loop examines the k-th item, the data submission loop runs the iterations qs[k] (any DA answers: acceptance of
+   a prefix, failures, cancellation); then, unless refused, the block is committed.  [wrun] runs such a history. *)
+From Verif Require Import Model.SubmitterWaiting Proofs.SubmitterWaitingProofs.
+
+(* histories without the new item are exactly the histories with in-flight commits *)
+Theorem C06_two_writers_extends_inflight_full : forall (c : cfg) (init : N) (h : list citem),
+  wrun c init (map WC h) = crun c init h.
+Proof. exact (fun c init h => wrun_from_WC c h (boot init)). Qed.
+Print Assumptions C06_two_writers_extends_inflight_full.
+
+(* Safety (the statement of C06_watermark_sound_full, word for word) at every moment of every history in which the two
+   writers of the data watermark interleave in any of these ways. *)
+Theorem C06_watermark_sound_two_writers_full : forall (c : cfg) (init : N) (hist : list witem) (k : kind),
+  1 <= init ->
+  let s := wrun c init hist in
+  let sd := get_side k s in
+  vol sd = resume (s_init s) (meta sd) /\ vol sd = N.max (meta0 (meta sd)) (s_init s - 1) /\
+  vol sd <= height s /\
+  (forall m, s_init s <= m <= vol sd -> relevant k s m -> In m (acc sd)) /\
+  (forall x, In x (acc sd) -> s_init s <= x <= height s /\ relevant k s x /\
+             forall m, s_init s <= m < x -> relevant k s m -> In m (acc sd)) /\
+  (forall cl, In cl (calls sd) ->
+     c_vol cl = resume (s_init s) (c_meta cl) /\ StronglySorted N.lt (c_hs cl) /\
+     forall x, In x (c_hs cl) ->
+       c_vol cl < x <= height s /\ s_init s <= x /\ relevant k s x /\
+       forall m, c_vol cl < m < x -> relevant k s m -> In m (c_hs cl)).
+Proof. exact watermark_sound_waiting. Qed.
+Print Assumptions C06_watermark_sound_two_writers_full.
+
+Theorem C06_watermark_monotone_two_writers_full : forall (c : cfg) (init : N) (h1 h2 : list witem) (k : kind),
+  1 <= init ->
+  vol (get_side k (wrun c init h1)) <= vol (get_side k (wrun c init (h1 ++ h2))) /\
+  meta0 (meta (get_side k (wrun c init h1))) <= meta0 (meta (get_side k (wrun c init (h1 ++ h2)))).
+Proof. exact watermark_monotone_waiting. Qed.
+Print Assumptions C06_watermark_monotone_two_writers_full.
+
+(* Liveness (C06_eventually_full word for word) from every state reachable with both writers: what block production
+   stepped over is never something that still had to be submitted. *)
+Theorem C06_eventually_two_writers_full : forall (c : cfg) (init : N) (hist : list witem) (k : N) (fails sc : list outcome) (kd : kind),
+  1 <= init ->
+  forallb nonprogress fails = true -> (length fails < max_attempts)%nat ->
+  let s := wrun c init hist in
+  height s <= k ->
+  let s' := fst (step c s (ITick kd (fails ++ OAccept k :: sc))) in
+  (forall m, s_init s <= m <= height s -> relevant kd s m -> In m (acc (get_side kd s'))) /\
+  (kd = KHeader -> vol (s_h s') = height s).
+Proof. exact (fun c init hist k fails sc kd H1 => eventually_waiting c init hist k fails sc kd H1). Qed.
+Print Assumptions C06_eventually_two_writers_full.
+
+(* One call of publishBlockInternal, whatever the data submission loop does inside the check: the data watermark it leaves
+   (in memory and recorded) is at most the chain height BEFORE the call (never the height of the block being committed,
+   never above the store), every committed block with transactions up to it has its data on the DA layer, and the
+   header side is untouched. *)
+Theorem C06_limit_check_steps_over_accepted_only_full : forall (c : cfg) (init : N) (h : list witem) (L : N) (b : bool) (qs : wsched),
+  1 <= init ->
+  let s := wrun c init h in
+  let s' := wstep c s (WPublish L b qs) in
+  vol (s_d s') <= height s /\ meta0 (meta (s_d s')) <= height s /\
+  (forall m, s_init s <= m <= vol (s_d s') -> nonempty_at (s_init s) (s_chain s) m = true -> In m (acc (s_d s'))) /\
+  vol (s_h s') = vol (s_h s) /\ meta (s_h s') = meta (s_h s) /\ acc (s_h s') = acc (s_h s).
+Proof. exact publish_steps_over_accepted_only. Qed.
+Print Assumptions C06_limit_check_steps_over_accepted_only_full.
+
+Theorem C06_comparator_walks_two_writer_history_full : forall (c : cfg) (h : list witem) (os : list Check.SubmitterCheck.iout) (s : state),
+  length h = length os ->
+  fst (Check.SubmitterCheck.check_witems c s h os) = wrun_from c s h.
+Proof. exact check_witems_state. Qed.
+Print Assumptions C06_comparator_walks_two_writer_history_full.
+
+(* Non-vacuity: limit 3; heights 1 (no transactions), 2, 3 (transactions), headers submitted, no data submitted.  The
+   fourth publishBlockInternal reaches the limit (3 data items pending) and calls numWaitingData, which reads (1,2,3);
+   then the data loop submits data 2 and 3, the DA layer accepts data 2 only and the round ends: watermark 2; then
+   numWaitingData's loop: item 1 has no transactions, setLastSubmittedDataHeight(1) changes nothing (2 > 1); two items
+   wait, fewer than 3: the block (height 4) is committed.  Data watermark 2, data 3 still to be submitted — and the next
+   accepting iteration submits exactly [3].  (The mutation "one update for the run of leading empty items, first height
+   re-read after the range" would give watermark 3 here.)  Sequentially (no iteration inside) the check steps over
+   height 1.  With limit 2 the same call is refused and commits nothing. *)
+Example ex_two_writers :
+  let pre := [WPublish 3 false []; WC (CH (HI (ITick KHeader [OAccept 1000])));
+              WPublish 3 true []; WC (CH (HI (ITick KHeader [OAccept 1000])));
+              WPublish 3 true []; WC (CH (HI (ITick KHeader [OAccept 1000])))] in
+  let s0 := wrun cf 1 pre in
+  height s0 = 3 /\ vol (s_d s0) = 0 /\
+  let '(called, refused, s1) := limit_check cf 3 [[[OAccept 1]]] s0 in
+  called = true /\ refused = false /\ vol (s_d s1) = 2 /\ meta (s_d s1) = Some 2 /\ rev (acc (s_d s1)) = [2] /\
+  let s2 := wstep cf s0 (WPublish 3 true [[[OAccept 1]]]) in
+  height s2 = 4 /\ vol (s_d s2) = 2 /\
+  let s3 := fst (step cf s2 (ITick KData [OAccept 1000])) in
+  map c_hs (firstn 1 (calls (s_d s3))) = [[3; 4]] /\ rev (acc (s_d s3)) = [2; 3; 4] /\
+  vol (s_d (wstep cf s0 (WPublish 3 true []))) = 1 /\
+  let '(called2, refused2, s4) := limit_check cf 2 [] s0 in
+  called2 = true /\ refused2 = true /\ height (wstep cf s0 (WPublish 2 true [])) = 3.
+Proof. vm_compute. repeat split; try reflexivity; try discriminate. Qed.
